@@ -112,6 +112,34 @@ class switch_translator:
                 'closed switch is (nearly) a short': implies(closed, lambda: result.value['R'] <= 1e-9)}
 
 
+@contract('CircuitCalculator.SimpleCircuit.CircuitComponentTranslators.switch_translator', props=P, name='switch_operated_after_construction')
+class switch_operated:
+    """The drawn state of a switch that is opened / closed / toggled AFTER construction is the state that is translated."""
+    def inputs(g):
+        return dict(name=g.label('name'), n1=g.label('n1'), n2=g.label('n2'), closed=g.bool('closed'), op=g.choice('op', ['open', 'close', 'toggle', 'toggle twice']))
+
+    def call(f, name, n1, n2, closed, op):
+        sw = elm.Switch(name=name, state=elm.SwitchState.CLOSED if closed else elm.SwitchState.OPEN)
+        if op == 'open':
+            sw.open()
+        elif op == 'close':
+            sw.close()
+        elif op == 'toggle':
+            sw.toggle()
+        else:
+            sw.toggle()
+            sw.toggle()
+        return (f(sw, (n1, n2)), sw.state)
+
+    def ensures(result, name, n1, n2, closed, op):
+        comp, state = result
+        expect_closed = False if op == 'open' else (True if op == 'close' else ((not closed) if op == 'toggle' else closed))
+        return {'state after the operation': iff(state == elm.SwitchState.CLOSED, expect_closed) and iff(state == elm.SwitchState.OPEN, not expect_closed),
+                'translated as drawn: open is an infinite resistance': implies(not expect_closed, lambda: not np.isfinite(comp.value['R'])),
+                'translated as drawn: closed is (nearly) a short': implies(expect_closed, lambda: comp.value['R'] <= 1e-9),
+                'wiring': comp.type == 'resistor' and comp.id == name and eq(comp.nodes, (n1, n2))}
+
+
 TABLE = {
     'Resistor': 'resistor_translator', 'Impedance': 'impedance_translator', 'Conductance': 'conductance_translator',
     'VoltageSource': 'dc_voltage_source_translator', 'ComplexVoltageSource': 'complex_voltage_source_translator',
